@@ -54,4 +54,59 @@ theorem voxelSize_bounds (L res : ℚ) (n : Nat) (hn : 0 < n) (hres : 0 < res)
   rw [h]
   exact C08.voxel_size_bounds L res n hn hres hlo hhi
 
+
+/-! ### the grid of `trajectory_to_volume` -/
+
+/-- `astype(int)` of a non-negative whole number is that number -/
+theorem truncZ_intCast_nonneg (n : ℤ) (h : 0 ≤ n) : G.truncZ (n : ℚ) = n := by
+  have hq : (0 : ℚ) ≤ (n : ℚ) := by exact_mod_cast h
+  have hf : ((n : ℚ)).floor = ⌊(n : ℚ)⌋ := rfl
+  unfold G.truncZ
+  rw [if_pos hq, hf, Int.floor_intCast]
+
+/-- the generated edge count, in closed form (needs only `0 ≤ ⌊L / res⌋`) -/
+theorem nEdges_eq (L res : ℚ) (h : 0 ≤ ⌊L / res⌋) : Gen.nEdges L res = 1 + ⌊L / res⌋ := by
+  have hf : (L / res).floor = ⌊L / res⌋ := rfl
+  have h1 : (0 : ℤ) ≤ 1 + ⌊L / res⌋ := by omega
+  have hc : (1 : ℚ) + ((⌊L / res⌋ : ℤ) : ℚ) = (((1 + ⌊L / res⌋ : ℤ)) : ℚ) := by push_cast; ring
+  unfold Gen.nEdges
+  simp only [hf]
+  rw [hc]
+  exact truncZ_intCast_nonneg _ h1
+
+/-- number of voxels along an axis = number of edges − 1 = ⌊L / resolution⌋ -/
+theorem nEdges_spec (L res : ℚ) (hL : 0 ≤ L) (hres : 0 < res) : Gen.nEdges L res - 1 = ⌊L / res⌋ := by
+  have h0 : 0 ≤ ⌊L / res⌋ := Int.floor_nonneg.mpr (div_nonneg hL (le_of_lt hres))
+  rw [nEdges_eq L res h0]
+  ring
+
+/-- with `n = nEdges − 1 ≥ 1` voxels: `n·res ≤ L < (n+1)·res`, hence (voxelSize_bounds) res ≤ voxel edge < 2 res -/
+theorem nEdges_bracket (L res : ℚ) (hL : 0 ≤ L) (hres : 0 < res) :
+    ((Gen.nEdges L res - 1 : Int) : ℚ) * res ≤ L ∧ L < (((Gen.nEdges L res - 1 : Int) : ℚ) + 1) * res := by
+  rw [nEdges_spec L res hL hres]
+  have h1 := Int.floor_le (L / res)
+  have h2 := Int.lt_floor_add_one (L / res)
+  constructor
+  · exact (le_div_iff₀ hres).mp h1
+  · exact (div_lt_iff₀ hres).mp h2
+
+/-- at least one voxel as soon as the resolution does not exceed the axis length -/
+theorem nEdges_ge_two (L res : ℚ) (hres : 0 < res) (h : res ≤ L) : 2 ≤ Gen.nEdges L res := by
+  have h1 : (1 : ℚ) ≤ L / res := (le_div_iff₀ hres).mpr (by linarith)
+  have h2 : (1 : ℤ) ≤ ⌊L / res⌋ := Int.le_floor.mpr (by exact_mod_cast h1)
+  rw [nEdges_eq L res (by omega)]
+  omega
+
+theorem edges_are_uniform_drop_first : Gen.edgesAreUniformDropFirst = true := by
+  rfl
+
+theorem indices_are_digitize : Gen.indicesAreDigitize = true := by
+  rfl
+
+theorem counts_are_unique_rows : Gen.countsAreUniqueRows = true := by
+  rfl
+
+theorem samples_are_all_positions : Gen.samplesAreAllPositions = true := by
+  rfl
+
 end G.C08Gen
